@@ -76,3 +76,63 @@ def staging_dtypes(prog: Program, rep, rule="staging-dtype"):
                                  f"staging type first, where what does not fit wraps or is rounded silently; the field on disk then differs from the object",
                                  construct=f"{where} staging {v.id}")
     rep.floor(rule, n, 1)
+
+
+def constructor_dtypes(prog: Program, cd, rep, rule="staging-dtype"):
+    """A constructor that converts an argument to an explicit element type before storing it (`self.a = np.asarray(x, dtype=T)`,
+    `np.array(x, dtype=T)`, `x.astype(T)`) puts every value through T - on construction and on decoding, since decoders build
+    through the constructor.  When the writer stores that attribute with a codec of another scalar type, values that T cannot hold
+    are altered before they reach the file and after they were read from it (a float64 field held as float32 loses 29 mantissa
+    bits, silently).  T must be the scalar type of the field's codec."""
+    from .facts import init_summary  # noqa: F401  (kept for symmetry with the other constructor rules)
+    from .layout import Field, walk_terms
+    n = 0
+    for u in cd.units.values():
+        c = u.cls
+        init = c.get("__init__") if c is not None else None
+        if init is None or u.wterms is None:
+            continue
+        stored = {}
+        for t in walk_terms(u.wterms):
+            if isinstance(t, Field) and t.role == "data" and t.value is not None and t.dt.kind in ("i", "u", "f"):
+                v = t.value
+                if isinstance(v, ast.Attribute) and isinstance(v.value, ast.Name) and v.value.id == "self":
+                    stored.setdefault(v.attr, t.dt)
+        sn = init.self_name or "self"
+        btype = lambda nm, _m=c.module: (prog.codec(_m, nm) or (None, None))[1]
+        for st in ast.walk(init.node):
+            if not (isinstance(st, ast.Assign) and len(st.targets) == 1 and isinstance(st.targets[0], ast.Attribute) and isinstance(st.targets[0].value, ast.Name)
+                    and st.targets[0].value.id == sn and st.targets[0].attr in stored):
+                continue
+            dts = []
+            for v in ast.walk(st.value):
+                if isinstance(v, ast.Call) and norm(v.func) in ("np.array", "np.asarray", "numpy.array", "numpy.asarray", "np.ascontiguousarray"):
+                    d_ = next((k.value for k in v.keywords if k.arg == "dtype"), v.args[1] if len(v.args) > 1 else None)
+                    if d_ is not None:
+                        dts.append(d_)
+                elif isinstance(v, ast.Call) and isinstance(v.func, ast.Attribute) and v.func.attr == "astype" and v.args:
+                    dts.append(v.args[0])
+            for d_ in dts:
+                n += 1
+                got = None
+                if isinstance(d_, ast.Attribute) and isinstance(d_.value, ast.Name) and d_.value.id in ("np", "numpy") and d_.attr in NP_SCALARS:
+                    got = NP_SCALARS[d_.attr]
+                elif isinstance(d_, ast.Name) and d_.id in ("int", "float"):
+                    got = {"int": ("i", 8), "float": ("f", 8)}[d_.id]
+                else:
+                    try:
+                        dd = parse_dtype_node(d_, btype=btype)
+                        got = (dd.kind, dd.size) if dd is not None and dd.kind != "V" else None
+                    except AnalysisError:
+                        got = None
+                if got is None:
+                    continue
+                want = stored[st.targets[0].attr]
+                where = f"{c.name}.__init__"
+                if got == (want.kind, want.size):
+                    rep.ok(rule, f"{where}: `{st.targets[0].attr}` is held as {got[0]}{got[1]}, the type it is written in", nontrivial=True)
+                else:
+                    rep.fail(rule, c.module.path.name, where, st, f"`{st.targets[0].attr}` is converted to {got[0]}{got[1]} (`{norm(d_)}`) by the constructor but the record stores it as "
+                             f"{want.kind}{want.size}: every value passes through the narrower / other type on construction and on decoding, so stored numbers come back (and go out) altered",
+                             construct=f"{where} converts {st.targets[0].attr}")
+    rep.floor(rule + "/constructor", n, 1)
